@@ -534,7 +534,8 @@ int main(int argc, char **argv) {
         for (Instruction &I : B)
           if (auto *DV = dyn_cast<DbgVariableIntrinsic>(&I))
             if (auto *V = DV->getVariable())
-              if (V->getArg())
+              if (V->getArg() && DV->getDebugLoc() && !DV->getDebugLoc()->getInlinedAt() &&
+                  V->getScope() && V->getScope()->getSubprogram() == SP)
                 names[V->getArg() - 1] = std::string(V->getName());
       if (SP)
         for (const DINode *N : SP->getRetainedNodes())
@@ -544,8 +545,8 @@ int main(int argc, char **argv) {
       for (Argument &A : F.args()) {
         if (!first) O << ",";
         first = false;
-        std::string nm = names.count(A.getArgNo()) ? names[A.getArgNo()]
-                                                   : std::string(A.getName());
+        std::string nm = !A.getName().empty() ? std::string(A.getName())
+                         : names.count(A.getArgNo()) ? names[A.getArgNo()] : std::string();
         const DIType *PT = nullptr;
         if (TA && A.getArgNo() + 1 < TA.size()) PT = TA[A.getArgNo() + 1];
         O << "{\"name\":" << jstr(nm) << ",\"ty\":" << jstr(tystr(A.getType()))
